@@ -67,6 +67,7 @@ structure CaseBlock where
   kind : String
   header : List (List String)   -- lines before the first `orc` (e.g. `m <hex>`)
   ops : List OpBlock
+  trailer : List (List String)  -- lines after the last op that are neither `o` nor commands (e.g. `det ok`)
   deriving Repr, Inhabited
 
 def parseOrc (ws : List String) : Option (List F32 × List F64) :=
@@ -85,6 +86,7 @@ def parseOrc (ws : List String) : Option (List F32 × List F64) :=
 /-- split the line stream of one case (after the `case` line, up to `end`) into blocks -/
 def buildCase (id kind : String) (lines : List (List String)) : Option CaseBlock := do
   let mut header : List (List String) := []
+  let mut trailer : List (List String) := []
   let mut ops : List OpBlock := []
   let mut cur : Option OpBlock := none
   let mut pendingOrc : Option (List F32 × List F64) := none
@@ -107,9 +109,9 @@ def buildCase (id kind : String) (lines : List (List String)) : Option CaseBlock
         cur := some { us := us, ds := ds, cmd := cmd, outs := [] }
         pendingOrc := none
       | none =>
-        if cur.isSome then none else header := header ++ [cmd]
+        if cur.isSome then trailer := trailer ++ [cmd] else header := header ++ [cmd]
   if let some c := cur then ops := c :: ops
-  return { id := id, kind := kind, header := header, ops := ops.reverse }
+  return { id := id, kind := kind, header := header, ops := ops.reverse, trailer := trailer }
 
 /-- read cases from a list of lines -/
 partial def splitCases (lines : List String) (acc : List CaseBlock) (bad : Nat) : List CaseBlock × Nat :=
